@@ -616,6 +616,27 @@ theorem c14_trace_Ks_old_loop_wrong_exactly_at_last_index :
       ((reshuffle false n index (idMatrix n)).map (agreesWithSpec n index (idMatrix n)) = some true ↔ index < n - 1) := by
   decide +kernel
 
+/-- TRACE, a particle ADDED during a step (e.g. a fragment created by the collision resolver), every N, every encounter set:
+    the backward in-place loop keeps the old N×N block at its positions in the (N+1)×(N+1) matrix (both variants), the new
+    particle's pair with every member of the encounter is flagged; FULL STATEMENT for the repaired source (`clear`): every other
+    cell of the new column is 0, so the interaction step treats non-members normally. -/
+theorem c14_trace_Ks_add_inserts_row_and_column {α : Type} (clear : Bool) (n : Nat) (enc : List Nat) (zero one : α) (ks : List α)
+    (hlen : ks.length = (n + 1) * (n + 1)) (henc : ∀ i ∈ enc, i < n) :
+    ∃ out, ksAdd clear n enc zero one ks = some out ∧
+      (∀ i j, i < n → j < n → out[i * (n + 1) + j]? = ks[i * n + j]?) ∧
+      (∀ i, i ∈ enc → out[i * (n + 1) + n]? = some one) ∧
+      (clear = true → ∀ i, i < n → i ∉ enc → out[i * (n + 1) + n]? = some zero) :=
+  ksAdd_spec clear n enc zero one ks hlen henc
+
+/-- FALSE of the current source for the non-members (finding F24): N = 3, only particle 2 in the encounter: the cell of the pair
+    (1, new) keeps the 9 that the old matrix had at that flat position (old entry (2,1)); with a fresh `realloc` it is
+    uninitialised memory -/
+theorem c14_trace_Ks_add_fails_current :
+    ksAdd false 3 [2] (0 : Int) 1 ([2, 3, 4, 5, 6, 7, 8, 9, 10] ++ List.replicate 7 (-7)) =
+      some [2, 3, 4, 5, 5, 6, 7, 9, 8, 9, 10, 1, -7, -7, -7, -7] ∧
+    ksAdd true 3 [2] (0 : Int) 1 ([2, 3, 4, 5, 6, 7, 8, 9, 10] ++ List.replicate 7 (-7)) =
+      some [2, 3, 4, 0, 5, 6, 7, 0, 8, 9, 10, 1, 0, 0, 0, 0] := by decide
+
 /-- MERCURIUS, FULL STATEMENT (repaired source, 4316980): with the zero fill, `reb_integrator_mercurius_part1` never reads
     a `dcrit` cell that has not been written — whatever `safe_mode`, the synchronisation state, the recalculation requests
     and the number of particles added since the last step — and leaves every cell written and at least N of them. -/
